@@ -85,20 +85,33 @@ struct Bk {
     attempts: u64,
     admitted: u64,
     first_b: f64,
-    /// admissions while the model said must-deny (kept so that one defect is not re-reported forever)
+    /// token bounds at the last call (for witnesses)
     t_lo: f64,
     t_hi: f64,
+    /// since the last proven touch there was a composite refusal that may never have reached this
+    /// bucket: it may be created / may re-open its window only at its next real touch
+    pending: bool,
+    saved: (f64, f64, u32, u32),
+    reset_in_pre: bool,
 }
 
 impl Bk {
     /// bucket created full at some instant in [b, a]
     fn new(c: &Cfg, b: f64, a: f64) -> Bk {
-        Bk { p_lo: c.burst - c.rate * a, p_hi: c.burst - c.rate * b, ws_lo: b, ws_hi: a, wc_lo: 0, wc_hi: 0, attempts: 0, admitted: 0, first_b: b, t_lo: c.burst, t_hi: c.burst }
+        Bk { p_lo: c.burst - c.rate * a, p_hi: c.burst - c.rate * b, ws_lo: b, ws_hi: a, wc_lo: 0, wc_hi: 0, attempts: 0, admitted: 0, first_b: b, t_lo: c.burst, t_hi: c.burst, pending: false, saved: (b, a, 0, 0), reset_in_pre: false }
     }
     /// advance to a call bracketed by [b, a]; returns the verdict and why
     fn pre(&mut self, c: &Cfg, b: f64, a: f64) -> (Must, &'static str) {
+        self.saved = (self.ws_lo, self.ws_hi, self.wc_lo, self.wc_hi);
+        self.reset_in_pre = false;
+        if self.pending {
+            // the bucket may be (re)started by this very call
+            self.ws_hi = self.ws_hi.max(a);
+            self.wc_lo = 0;
+        }
         // fixed window: re-opened by the first call later than `window` after it opened
         if b - self.ws_hi > c.window + TEPS {
+            self.reset_in_pre = true;
             self.ws_lo = b;
             self.ws_hi = a;
             self.wc_lo = 0;
@@ -148,8 +161,19 @@ impl Bk {
             }
             Post::MaybeTaken => {
                 self.p_lo -= 1.0;
+                if self.reset_in_pre {
+                    // the re-opening assumed in pre() only happened if the call reached this bucket
+                    self.ws_lo = self.saved.0;
+                    self.ws_hi = a;
+                    self.wc_lo = 0;
+                    self.wc_hi = self.wc_hi.max(self.saved.3);
+                }
                 self.wc_hi = (self.wc_hi + 1).min(c.max.max(self.wc_hi));
+                self.pending = true;
             }
+        }
+        if what != Post::MaybeTaken {
+            self.pending = false;
         }
         // tokens are never negative
         self.p_lo = self.p_lo.max(-c.rate * a);
@@ -170,11 +194,14 @@ impl Clock {
 }
 
 fn pause(rng: &mut Rng, c: &Cfg) {
-    // let refill happen: spin or sleep for about 0.2..3 tokens' worth, bounded
+    // let refill happen: wait for about 0.2..3 tokens' worth when that is short, else just jitter
     let tok = 0.2 + rng.f64() * 2.8;
-    let d = if c.rate > 0.0 { (tok / c.rate).min(0.004) } else { 0.0002 };
+    let mut d = if c.rate > 0.0 { tok / c.rate } else { 1.0 };
+    if d > 0.002 {
+        d = 0.00002 + rng.f64() * 0.0001;
+    }
     let until = Instant::now() + Duration::from_secs_f64(d);
-    if d > 0.0005 {
+    if d > 0.0003 {
         std::thread::sleep(Duration::from_secs_f64(d));
     } else {
         while Instant::now() < until {
@@ -438,9 +465,9 @@ fn engine_eviction(mon: &Monitor, rng: &mut Rng) {
         mon.case(("engine-key-lru", must.name(), ok, phase.to_string()));
         if ok && must == Must::Deny {
             mon.violation(
-                &format!("must-deny-admitted/engine-key/{why}/after-100k-other-keys"),
+                &format!("must-deny-admitted/engine-key/{}", if phase.contains(">=100k") { "after-100k-other-keys" } else { "after-fewer-than-100k-other-keys" }),
                 json!({"what": "a key that had spent its whole budget is admitted again once more than 100 000 other keys have been seen (its bucket was evicted and re-created full)",
-                       "config": c.json(), "model_before_call": m.json(), "since_first_attempt_s": a - m.first_b, "phase": phase}),
+                       "config": c.json(), "model_before_call": m.json(), "reason": why, "since_first_attempt_s": a - m.first_b, "phase": phase}),
             );
         }
         if !ok && must == Must::Admit {
@@ -835,7 +862,10 @@ fn check_ip_scenario(mon: &Monitor, rng: &mut Rng) {
     let ips: Vec<IpAddr> = (0..nips)
         .map(|i| if rng.chance(0.5) { IpAddr::V4(Ipv4Addr::new(10, 0, (i / 200) as u8, (i % 200) as u8 + 1)) } else { IpAddr::V6(Ipv6Addr::new(0x2001, 0xdb8, rng.below(4) as u16, 0, 0, 0, 0, i as u16 + 1)) })
         .collect();
+    // per address: its own bucket, and `share` = a private copy of the shared bucket charged by every
+    // attempt of this address only (what the shared bucket would hold if nobody else existed, at worst)
     let mut keys: HashMap<IpAddr, Bk> = HashMap::new();
+    let mut share: HashMap<IpAddr, Bk> = HashMap::new();
     let n = rng.urange(10, mon.by_tier(500, 1200));
     // one address does most of the talking; the others show up now and then, some only late
     let late_from = rng.urange(0, n);
@@ -856,12 +886,14 @@ fn check_ip_scenario(mon: &Monitor, rng: &mut Rng) {
         };
         mon.count(if ok { "check_ip.admitted" } else if by_global { "check_ip.denied-by-global" } else { "check_ip.denied-by-ip" }, 1);
         let fresh = !keys.contains_key(&ip);
-        let others_active = keys.iter().any(|(k, v)| *k != ip && v.attempts > 0);
+        let others: Vec<String> = keys.iter().filter(|(k, v)| **k != ip && v.attempts > 0).map(|(k, v)| format!("{k}: {}/{}", v.admitted, v.attempts)).collect();
         let bk = keys.entry(ip).or_insert_with(|| Bk::new(&c, b, a));
+        let sh = share.entry(ip).or_insert_with(|| Bk::new(&c, b, a));
         let (must, why) = bk.pre(&c, b, a);
+        let (must_sh, _) = sh.pre(&c, b, a);
         mon.eval();
         if !fresh {
-            mon.case(("check_ip", must.name(), ok, by_global, c.shape(), others_active));
+            mon.case(("check_ip", must.name(), must_sh.name(), ok, by_global, c.shape(), !others.is_empty()));
         }
         match must {
             Must::Either => mon.count("skipped.undecidable-from-two-clock-readings", 1),
@@ -872,24 +904,23 @@ fn check_ip_scenario(mon: &Monitor, rng: &mut Rng) {
             mon.violation(&format!("must-deny-admitted/check_ip/{why}/{}", c.shape()), json!({"ip": ip.to_string(), "config": c.json(), "model_before_call": bk.json()}));
         }
         if !ok && must == Must::Admit {
-            // the address' own budget (counting every earlier attempt of it as a spent token) was not exhausted
-            let sig = if by_global && others_active {
-                format!("cross-key/check_ip/own-budget-left-denied-by-global/{cfgtag}")
-            } else if by_global {
-                format!("must-admit-denied/check_ip/by-global-alone/{cfgtag}")
+            if !by_global {
+                mon.violation(&format!("must-admit-denied/check_ip/by-own-bucket/{cfgtag}"), json!({"ip": ip.to_string(), "config": c.json(), "own_model_before_call": bk.json()}));
+            } else if must_sh == Must::Admit && !others.is_empty() {
+                // all traffic of this address so far fits in one bucket of this size, so the refusal is
+                // caused by what OTHER addresses sent
+                mon.violation(
+                    &format!("cross-key/check_ip/refused-for-other-addresses-traffic/{cfgtag}"),
+                    json!({"what": "an address whose own traffic is within one bucket's budget is refused because other addresses emptied the shared bucket (it has the same size as a single address' bucket)",
+                           "ip": ip.to_string(), "first_attempt_of_this_ip": fresh, "config": c.json(), "own_bucket_model": bk.json(), "shared_bucket_if_alone_model": sh.json(), "other_ips(admitted/attempts)": others}),
+                );
             } else {
-                format!("must-admit-denied/check_ip/by-own-bucket/{cfgtag}")
-            };
-            mon.violation(
-                &sig,
-                json!({"what": "an address that has budget of its own is refused because other addresses used up the shared bucket, which has the same size as one address' bucket",
-                       "ip": ip.to_string(), "first_attempt_of_this_ip": fresh, "config": c.json(), "own_model_before_call": bk.json(),
-                       "other_ips(admitted/attempts)": keys.iter().filter(|(k, _)| **k != ip).map(|(k, v)| format!("{k}: {}/{}", v.admitted, v.attempts)).collect::<Vec<_>>()}),
-            );
+                mon.count("skipped.shared-bucket-refusal-explainable-by-own-traffic", 1);
+            }
         }
         // a refusal may have happened before or after the address' own bucket was charged
-        let bk = keys.get_mut(&ip).expect("present");
         bk.post(&c, b, a, if ok { Post::Admitted } else if by_global { Post::MaybeTaken } else { Post::Denied });
+        sh.post(&c, b, a, if ok { Post::Admitted } else { Post::MaybeTaken });
     }
     let end = clk.s(Instant::now());
     for bk in keys.values() {
@@ -911,7 +942,7 @@ fn main() {
     mon.assume("Instant::now() read immediately before and after a call brackets the limiter's own reading; verdicts that depend on where inside the bracket it fell are skipped and counted");
     mon.assume("window = 0 (infinite rate) is not generated; token comparisons carry 1e-6 tolerance for the limiter's f64 accumulation");
     mon.assume("TransportHandle built through the verif seam uses a disabled limiter (u32::MAX/4), so the accept-loop limiter is exercised as validation::RateLimiter with the production default and random configs");
-    let rounds = mon.by_tier(140u64, 5200);
+    let rounds = mon.by_tier(60u64, 520);
     vkit::run_shards(mon.shards(), mon.seed, |i, mut rng| {
         for k in 0..rounds {
             if mon.time_up() {
